@@ -144,6 +144,8 @@ struct Stage {
     n: usize,
     groups: Vec<Vec<Case>>,
     queries: Vec<(usize, usize)>,
+    /// also read every projection AS OF the batch's snapshot and through the snapshot token
+    coordinates: bool,
 }
 
 fn stages(tier: Tier) -> Vec<Stage> {
@@ -176,6 +178,75 @@ fn stages(tier: Tier) -> Vec<Stage> {
             n: 1,
             groups,
             queries: q3.clone(),
+            coordinates: false,
+        });
+    }
+    // read-coordinate dimension: the snapshot taken right after a batch, bound by AS OF SEQ or by the
+    // snapshot token, read at once and again after later writes. Batches are small and Worlds short-lived
+    // because a historical read scans the whole version log; every batch holds 8 subjects that share the
+    // predicate, so another subject's assertions are always on record next to the one projected.
+    {
+        let l = letters(
+            &[false, true],
+            if quick { &[0u8, 1] } else { &all_ev },
+            if quick { &[9u8] } else { &[0u8, 9] },
+        );
+        let s2 = structure_multisets(2, true, 3);
+        let mut groups = Vec::new();
+        for functional in [true, false] {
+            groups.extend(full_family(functional, &l, 0));
+            groups.extend(full_family(functional, &l, 1));
+        }
+        let labels2: &[Label] = if quick {
+            &[T_S, T_R, V_S, V_R]
+        } else {
+            &[T_S, T_R, T_U, V_S, V_R, V_U]
+        };
+        // the recording order is a separate dimension: sorted order only (quick), all orders (thorough)
+        let mut pairs = pattern_family(true, &s2, &words(labels2, 2), &[vec![6u8, 9]], true);
+        if quick {
+            for g in pairs.iter_mut() {
+                g.truncate(1);
+            }
+        }
+        groups.extend(pairs);
+        let mut what = format!(
+            "n<=1 both predicates over {} letters; n=2 functional: {} structure pairs{} x {} value/stance pairs",
+            l.len(),
+            s2.len(),
+            cls(true),
+            labels2.len().pow(2)
+        );
+        if !quick {
+            let s3c = structure_multisets(3, true, 3);
+            groups.extend(pattern_family(
+                false,
+                &s2,
+                &words(&[T_S, T_R, T_U], 2),
+                &[vec![6u8, 9]],
+                true,
+            ));
+            groups.extend(pattern_family(
+                true,
+                &s3c,
+                &words(&[T_R, V_S, T_S], 3),
+                &[vec![3u8, 6, 9]],
+                true,
+            ));
+            what.push_str(&format!(
+                "; n=2 plain likewise; n=3 functional: {} structure multisets{} x 27 value/stance patterns",
+                s3c.len(),
+                cls(true)
+            ));
+        }
+        v.push(Stage {
+            name: format!(
+                "read coordinates (now vs snapshot by AS OF SEQ / by token, fresh and past): {what}"
+            ),
+            n: 1,
+            groups,
+            queries: q1.clone(),
+            coordinates: true,
         });
     }
     // n = 2: every pair of letters, both orders
@@ -196,12 +267,14 @@ fn stages(tier: Tier) -> Vec<Stage> {
                 true,
             ),
             queries: q3.clone(),
+            coordinates: false,
         });
         v.push(Stage {
             name: format!("n=2 functional: {} structure pairs{} x every value/stance pair x confidence patterns (.6,.9),(unstated,.3)", s2.len(), cls(true)),
             n: 2,
             groups: pattern_family(true, &s2, &words(&[T_S, T_R, T_U, V_S, V_R, V_U], 2), &[vec![6u8, 9], vec![0, 3]], true),
             queries: q1.clone(),
+            coordinates: false,
         });
     } else {
         for functional in [false, true] {
@@ -221,6 +294,7 @@ fn stages(tier: Tier) -> Vec<Stage> {
                 n: 2,
                 groups: full_family(functional, &l, 2),
                 queries: q1.clone(),
+                coordinates: false,
             });
         }
     }
@@ -253,6 +327,7 @@ fn stages(tier: Tier) -> Vec<Stage> {
         n: 3,
         groups: pattern_family(false, &s3, &plain3, &conf3, true),
         queries: q1.clone(),
+        coordinates: false,
     });
     let s3f = structure_multisets(3, true, 3);
     if !quick {
@@ -266,6 +341,7 @@ fn stages(tier: Tier) -> Vec<Stage> {
             n: 3,
             groups: pattern_family(false, &s3f, &words(&[T_S, T_R, T_U], 3), &[vec![0, 9, 3]], true),
             queries: q1.clone(),
+            coordinates: false,
         });
     }
     let func3: Vec<Vec<Label>> = if quick {
@@ -291,6 +367,7 @@ fn stages(tier: Tier) -> Vec<Stage> {
         n: 3,
         groups: pattern_family(true, &s3f, &func3, &conf3[..1], true),
         queries: q1.clone(),
+        coordinates: false,
     });
     // n = 4: one side (that is where components merge), every order
     let s4 = structure_multisets(4, quick, if quick { 2 } else { 3 });
@@ -311,6 +388,7 @@ fn stages(tier: Tier) -> Vec<Stage> {
         n: 4,
         groups: pattern_family(false, &s4, &plain4, &conf4, true),
         queries: q1.clone(),
+        coordinates: false,
     });
     let s4f = structure_multisets(4, true, 3);
     if !quick {
@@ -324,6 +402,7 @@ fn stages(tier: Tier) -> Vec<Stage> {
             n: 4,
             groups: pattern_family(false, &s4f, &[vec![T_S, T_S, T_R, T_S]], &conf4, true),
             queries: q1.clone(),
+            coordinates: false,
         });
         v.push(Stage {
         name: format!(
@@ -334,6 +413,7 @@ fn stages(tier: Tier) -> Vec<Stage> {
         n: 4,
         groups: pattern_family(true, &s4f, &[vec![V_S, T_R, V_S, T_R]], &conf4, true),
         queries: q1.clone(),
+        coordinates: false,
     });
     }
     if !quick {
@@ -347,6 +427,7 @@ fn stages(tier: Tier) -> Vec<Stage> {
             n: 5,
             groups: pattern_family(false, &s5, &[vec![T_S; 5]], &[vec![3, 6, 9, 0, 6]], false),
             queries: q1.clone(),
+            coordinates: false,
         });
     }
     v
@@ -446,7 +527,10 @@ fn main() {
         let n_hist: usize = stage.groups.iter().map(|g| g.len()).sum();
         // jobs: contiguous slices of groups with about equal numbers of histories
         let jobs_wanted = (threads * 3).min(n_groups.max(1));
-        let per_job = n_hist.div_ceil(jobs_wanted).max(1);
+        // coordinate stages: at least 4 batches of 8 per job, so both binding orders occur in every job
+        let per_job = n_hist
+            .div_ceil(jobs_wanted)
+            .max(if stage.coordinates { 32 } else { 1 });
         let mut jobs: Vec<Vec<Vec<Case>>> = vec![vec![]];
         let mut acc = 0;
         for g in stage.groups {
@@ -459,11 +543,12 @@ fn main() {
         }
         let plan = Plan {
             queries: stage.queries.clone(),
-            entry_points_every: 2,
+            entry_points_every: if stage.coordinates { 4 } else { 2 },
             restab: true,
-            batch_cases: 48,
-            rotate_batches: 12,
+            batch_cases: if stage.coordinates { 8 } else { 48 },
+            rotate_batches: if stage.coordinates { 2 } else { 12 },
             compare_within_group: true,
+            coordinates: stage.coordinates,
         };
         let t0 = Instant::now();
         let outcomes: Vec<Outcome> = util::par_map(
@@ -478,7 +563,12 @@ fn main() {
         for o in outcomes {
             run.add(
                 "evaluations",
-                o.evaluations + o.entry_point_checks + o.restab_checks + o.order_comparisons,
+                o.evaluations
+                    + o.entry_point_checks
+                    + o.restab_checks
+                    + o.order_comparisons
+                    + o.coordinate_projections
+                    + o.coordinate_comparisons,
             );
             run.add("projections_vs_model", o.evaluations);
             run.add("histories_recorded", o.histories);
@@ -487,6 +577,8 @@ fn main() {
             run.add("entry_point_checks", o.entry_point_checks);
             run.add("reprojection_checks", o.restab_checks);
             run.add("order_comparisons", o.order_comparisons);
+            run.add("historical_projections_vs_model", o.coordinate_projections);
+            run.add("coordinate_comparisons", o.coordinate_comparisons);
             run.add(
                 "note_other_value_ineligible_not_listed",
                 o.other_value_unlisted,
